@@ -262,6 +262,7 @@ def run(ck, F):
     ck.rule_desc["R08.3"] = "(= R10.4) " + ck.rule_desc.get("R08.3", "")
     import c07
     ck.run_rule(c07.r07_3)
+    ck.run_rule(c07.r07_5)       # dropping a request rejects it (the watcher's Rejected waits for a queue slot)
     ck.run_rule(c05.r05_1)
     import c03
     ck.run_rule(c03.r03_4b)      # a request waiting for a local port must be woken by every release
